@@ -355,6 +355,8 @@ class TJPTransformer(Transformer[Any, Any]):
                 seconds = int(value * 86400)
             else:
                 seconds = 3600  # default 1 hour
+            if seconds <= 0:
+                raise ValueError(f"timingresolution must be a positive duration, not '{duration}'")
             return ("timingresolution", seconds)
         return ("timingresolution", 3600)
 
@@ -1033,11 +1035,18 @@ class ModelBuilder:
 
                 from dateutil.relativedelta import relativedelta
 
-                match = re.match(r"(\d+)([dwmy])", duration_str)
+                match = re.match(r"(\d+)\s*(min|[hdwmy])$", duration_str.strip())
+                if not match:
+                    raise ValueError(f"Cannot read the project duration '{duration_str}' (use e.g. +36h, +10d, +6w, +3m, +1y)")
                 if match:
                     amount = int(match.group(1))
                     unit = match.group(2)
-                    if unit == "d":
+                    if unit == "min":
+                        # (not months: '+300min' is five hours)
+                        end_date = start_date + relativedelta(minutes=amount)
+                    elif unit == "h":
+                        end_date = start_date + relativedelta(hours=amount)
+                    elif unit == "d":
                         end_date = start_date + relativedelta(days=amount)
                     elif unit == "w":
                         end_date = start_date + relativedelta(weeks=amount)
